@@ -582,12 +582,23 @@ Proof.
   repeat (apply andb_true_intro; split); trans_tac.
 Qed.
 
+Lemma implb_orb_l a b : implb a (a || b) = true. Proof. destruct a, b; reflexivity. Qed.
+
 Lemma section_le s s' : shutdown_section s = inl s' -> sess_le s s' = true.
 Proof.
-  destruct s as [cg sh cd sc wc rc cr sw chn sd wk rv dn mx pk wt lk].
-  unfold shutdown_section, close_fault, SendClosed, WakeClosed, RecvClosed, CanRecv; simpl.
-  destruct sd, wk, rv, cd, sc, wc, rc, cr; simpl; intros H; inversion H; subst; clear H;
-    unfold sess_le; simpl; rewrite ?Bool.implb_same, ?chan_le_refl, ?Bool.implb_true_r; reflexivity.
+  unfold shutdown_section. intros H.
+  destruct (if negb (SendClosed s) then close_fault NSend (send s) else None) eqn:E1; [discriminate|].
+  destruct (if negb (chan_eqb (wake s) Nil) && negb (WakeClosed s) then close_fault NWake (wake s) else None) eqn:E2;
+    [discriminate|].
+  destruct (if negb (chan_eqb (recv s) Nil) && negb (CanRecv s) && negb (RecvClosed s)
+            then close_fault NRecv (recv s) else None) eqn:E3; [discriminate|].
+  inversion H; subst s'; clear H. unfold sess_le; cbn.
+  rewrite ?Bool.implb_same, ?Bool.implb_true_r, ?implb_orb_l, ?chan_le_refl. cbn.
+  destruct (negb (SendClosed s)); [destruct (send s); try discriminate E1|];
+    (destruct (negb (chan_eqb (wake s) Nil) && negb (WakeClosed s)); [destruct (wake s); try discriminate E2|]);
+    (destruct (negb (chan_eqb (recv s) Nil) && negb (CanRecv s) && negb (RecvClosed s));
+       [destruct (recv s); try discriminate E3|]);
+    cbn; rewrite ?chan_le_refl; reflexivity.
 Qed.
 
 Ltac le_solve :=
